@@ -75,9 +75,9 @@ def shards(tier):
     return out
 
 
-def ex(abbr, cfg):
+def ex(abbr, cfg, glob=None):
     try:
-        return expand(abbr, cfg)
+        return expand(abbr, cfg, glob) if glob is not None else expand(abbr, cfg)
     except Exception as e:
         return 'EXC:%s:%s' % (type(e).__name__, str(e)[:80])
 
@@ -163,6 +163,14 @@ def probes(syn, key, val):
     yield 'override', key, {'snippets': {key: 'foo-prop:bar'}}, eq('foo-prop' + between + 'bar' + after, 'user-override-ignored:key=' + key)
     yield 'override-raw', key, {'snippets': {key: 'raw ${1:body} text'}}, eq('raw body text', 'user-override-ignored:key=' + key)
     yield 'new-key', 'zzq', {'snippets': {'zzq': 'foo-prop:bar', key: val}}, eq('foo-prop' + between + 'bar' + after, 'new-key-unreachable')
+    # the user-defined snippets arrive through the global configuration (type section / syntax section), also through a cache
+    # that an earlier call without them has filled
+    for sect in ('stylesheet', syn):
+        for cached in (False, True):
+            yield 'override-global', key, {'__global__': {sect: {'snippets': {key: 'foo-prop:bar'}}}, '__cached__': cached}, \
+                eq('foo-prop' + between + 'bar' + after, 'user-override-ignored:key=' + key)
+    yield 'new-key-global', 'zzq', {'__global__': {'stylesheet': {'snippets': {'zzq': 'foo-prop:bar'}}}, '__cached__': True}, \
+        eq('foo-prop' + between + 'bar' + after, 'new-key-unreachable')
     # user-defined property snippets of other shapes: vendor-prefixed / custom property names, several listed values
     for body, prop, first, kw in (('-webkit-foo:none|auto', '-webkit-foo', 'none', 'auto'), ('--my-var:red|blue', '--my-var', 'red', 'blue'),
                                   ('foo:bar baz|qux', 'foo', 'bar baz', 'qux'), ('filter:blur()|none', 'filter', 'blur()', 'none')):
@@ -214,8 +222,15 @@ def probes(syn, key, val):
 
 def run_probe(syn, abbr, extra):
     cfg = {'type': 'stylesheet', 'syntax': syn, 'options': {'output.field': field}}
+    extra = dict(extra)
+    glob = extra.pop('__global__', None)
+    if extra.pop('__cached__', False):
+        # through a cache that a call without the user-defined snippets has filled first
+        cache = {}
+        ex(abbr, dict(cfg, cache=cache))
+        cfg['cache'] = cache
     cfg.update(extra)
-    return ex(abbr, cfg)
+    return ex(abbr, cfg, glob)
 
 
 def run_shard(shard, ctx, tier):
